@@ -87,6 +87,44 @@ func c26(x *ctx) {
 		}
 		defs = append(defs, c26def{"mrb-args-" + definer, wrap(def, ""), 0, -1, nil, "any"})
 	}
+	// (A2) one C function bound twice with different MRB_ARGS specs (the function reads its arguments through
+	// argc/argv, no format string): `target` must get its own spec whether it is bound first or second,
+	// through the plain or the _id definer
+	{
+		type sp struct {
+			spec     string
+			min, max int
+		}
+		sps := []sp{{"MRB_ARGS_NONE()", 0, 0}, {"MRB_ARGS_REQ(1)", 1, 1}, {"MRB_ARGS_OPT(1)", 0, 1}, {"MRB_ARGS_REST()", 0, -1}, {"MRB_ARGS_REQ(2)|MRB_ARGS_OPT(1)", 2, 3}}
+		mk := func(definer, name, spec string) string {
+			if definer == "id" {
+				return "mrb_define_class_method_id(mrb, cls, MRB_SYM(" + name + "), fn_target, " + spec + ");"
+			}
+			return "mrb_define_class_method(mrb, cls, \"" + name + "\", fn_target, " + spec + ");"
+		}
+		body := "  mrb_int argc = mrb_get_argc(mrb);\n  const mrb_value *argv = mrb_get_argv(mrb);\n  (void)argc; (void)argv;\n"
+		for ti, t := range sps {
+			for oi, o := range sps {
+				if ti == oi {
+					continue
+				}
+				for _, order := range []string{"target-first", "target-second"} {
+					for _, definers := range [][2]string{{"plain", "plain"}, {"id", "plain"}, {"plain", "id"}} {
+						if !thorough && definers[0] != "plain" && (ti+oi)%2 == 0 {
+							continue
+						}
+						dt, do := mk(definers[0], "target", t.spec), mk(definers[1], "other", o.spec)
+						definer := dt + "\n  " + do
+						if order == "target-second" {
+							definer = do + "\n  " + dt
+						}
+						defs = append(defs, c26def{"shared-function", wrap(definer, body), t.min, t.max, nil,
+							fmt.Sprintf("%s:definers=%s+%s:target=%s:other=%s", order, definers[0], definers[1], t.spec, o.spec)})
+					}
+				}
+			}
+		}
+	}
 	// (B)
 	tys := []string{"i", "S", "o"}
 	lit := map[string]string{"i": "1", "S": "\"s\"", "o": "1"}
